@@ -102,6 +102,36 @@ impl Outcome {
         let e = self.coverage.entry("harnesses".to_string()).or_insert_with(|| json!({}));
         e.as_object_mut().unwrap().insert(name.to_string(), v);
     }
+    /// fold another outcome (a second engine run for the same property) into this one
+    pub fn absorb(&mut self, o: Outcome) {
+        for k in ["evaluations", "states", "transitions", "traces_validated_against_impl", "distinct_nontrivial"] {
+            let n = o.coverage.get(k).and_then(|v| v.as_u64()).unwrap_or(0);
+            self.add_count(k, n);
+        }
+        if let Some(h) = o.coverage.get("harnesses").and_then(|v| v.as_object()) {
+            for (k, v) in h {
+                self.harness(k, v.clone());
+            }
+        }
+        if let Some(s) = o.coverage.get("samples").and_then(|v| v.as_array()) {
+            for x in s {
+                self.add_sample(x.clone());
+            }
+        }
+        if let Some(Value::Bool(false)) = o.coverage.get("exhaustive") {
+            self.set("exhaustive", json!(false));
+        }
+        for (k, v) in o.coverage {
+            if !self.coverage.contains_key(&k) {
+                self.coverage.insert(k, v);
+            }
+        }
+        self.violations.extend(o.violations);
+        for a in o.assumptions {
+            self.assume(&a);
+        }
+        self.machinery_errors.extend(o.machinery_errors);
+    }
     pub fn guard_nonzero(&mut self, what: &str, n: u64) {
         if n == 0 {
             self.machinery_errors.push(format!("vacuity guard: {} == 0", what));
